@@ -191,6 +191,10 @@ class Program:
     def __init__(self, mir_text, src_root):
         self.fns = parse_mir(mir_text)
         self.src_root = src_root
+        # immutable integer statics: `allocN (static: NAME, size: k, align: k) { bytes }`
+        self._static_allocs = {}
+        for mm_ in re.finditer(r"^(alloc\d+) \(static: [\w:]+, size: (\d+), align: \d+\) \{\n\s*((?:[0-9a-f]{2} )+)", mir_text, re.M):
+            self._static_allocs.setdefault(mm_.group(1), int.from_bytes(bytes.fromhex(mm_.group(3).replace(" ", "")), "little"))
         self._impl_cache = {}
         self.by_method = {}       # method name -> [def name]
         self.closures = {}        # "file:l:c: l:c" -> def name
@@ -1285,6 +1289,13 @@ class Engine:
             raw = raw[len("ZeroSized: "):].strip()
             if raw.startswith("{closure@"):
                 return VStruct(raw[:match_close(raw, 0) + 1], [], origin=fr.fn.name)
+        ma = re.match(r"^\{(alloc\d+): &(u8|u16|u32|u64|usize|i32|i64|bool)\}$", raw)
+        if ma:
+            # a reference to an immutable integer `static`: its bytes are printed at the end of the function's MIR
+            allocs = getattr(self.P, "_static_allocs", {})
+            if ma.group(1) in allocs:
+                ty_ = ma.group(2)
+                return VRef(Cell(VBool(bool(allocs[ma.group(1)])) if ty_ == "bool" else VInt(allocs[ma.group(1)], ty_), "static"))
         if "::promoted[" in raw:
             fn = self.P.resolve_promoted(raw)
             if fn is None:
